@@ -61,7 +61,7 @@ def run(tier, seed):
       'nsga2': lambda p, sd: nsga2.NSGA2Designer(p, seed=sd),
   }
   for si in range(nspace):
-    problem, meta = spaces.gen_space(r, vz)
+    problem, meta = spaces.gen_space(r, vz, extreme=(si % 4 == 3))     # every fourth space has ranges beyond float32 / float64
     for name, make in algos.items():
       if tier == 'quick' and r.random() < 0.45 and name != 'eagle':
         continue
@@ -228,6 +228,34 @@ def run(tier, seed):
                {'space': meta, 'suggested': {k: v.value for k, v in sg.parameters.items()}})
     except Exception as e:  # pylint: disable=broad-except
       rep.count('seed_with_default_refused_%s' % type(e).__name__)
+  # ---- large INTEGER ranges walked to their end: grid search enumerates every value of the range (whatever stride or cache it uses
+  # internally), so after (number of values + a few) suggestions the last grid points have been handed out
+  for gi, (lo_, hi_) in enumerate([(0, 2000), (-7, 1500), (0, 2503)] if tier == 'quick' else [(0, 2000), (-7, 1500), (0, 2503), (1, 4001), (0, 999), (0, 1000), (5, 3333)]):
+    for shuffled in (False, True):
+      prob_ = vz.ProblemStatement()
+      prob_.search_space.root.add_int_param('n', lo_, hi_)
+      prob_.metric_information.append(vz.MetricInformation(name='m', goal=vz.ObjectiveMetricGoal.MAXIMIZE))
+      meta_ = {'n': ('i', (lo_, hi_))}
+      nm_ = 'shuffled_grid' if shuffled else 'grid'
+      try:
+        d_ = grid.GridSearchDesigner(prob_.search_space, shuffle_seed=7) if shuffled else grid.GridSearchDesigner(prob_.search_space)
+        seen_, bad_ = set(), None
+        total_ = hi_ - lo_ + 1
+        got_ = 0
+        while got_ < total_ + 3:
+          for s_ in d_.suggest(r.choice([250, 400, 1000])):
+            got_ += 1
+            v_ = s_.parameters['n'].value
+            seen_.add(v_)
+            if bad_ is None and spaces.check_suggestion(meta_, {'n': v_}):
+              bad_ = (got_, v_)
+        rep.case({'large_integer_range': [lo_, hi_], 'algorithm': nm_, 'suggestions': got_}, True)
+        rep.count('large_integer_' + nm_)
+        if bad_:
+          viol('%s suggested a value outside a large INTEGER range: suggestion %d is n = %r' % (nm_, bad_[0], bad_[1]),
+               {'algorithm': nm_, 'bounds': [lo_, hi_], 'suggestion_number': bad_[0], 'value': repr(bad_[1])})
+      except Exception as e:  # pylint: disable=broad-except
+        rep.count('large_integer_refused_%s_%s' % (nm_, type(e).__name__))
   # ---- through the service: a study deleted and re-created under the same name with ANOTHER search space, one server process
   # (whatever the server remembers of the old study must not shape the suggestions of the new one)
   try:
